@@ -34,6 +34,12 @@
 (* of the tie, "rounded" is ambiguous in the property itself, and both     *)
 (* neighbours are admissible.  Nowhere else.                               *)
 (*                                                                         *)
+(* A second, rarer ambiguity lies in the INPUT: an f64 that is exactly     *)
+(* half-way between two decimals of the shortest length has two shortest   *)
+(* representations (Rust's `{:e}` and ryu, which the implementation uses,  *)
+(* pick different ones, e.g. 900719925474099.25 -> ...99.3 / ...99.2);     *)
+(* Trace_NumFormat judges such a value for either of them (field alts).    *)
+(*                                                                         *)
 (* Format is the spec's own reference formatter; MC_NumFormat checks       *)
 (* ReadBack(Format(x)) = RoundSig(x, sig) resp. = x on it.                 *)
 (***************************************************************************)
